@@ -471,7 +471,7 @@ def desc_signature(d):
     return sig
 
 
-def c11_case(acc, sp, kw, rng, tier):
+def c11_case(acc, sp, kw, rng, tier, xproc=None):
     z = SIZES[tier]
     F = Subject(sp, flat_actions=True, **kw)
     W = lambda what: wit(sp, kw, F.modes, what)     # noqa
@@ -512,6 +512,18 @@ def c11_case(acc, sp, kw, rng, tier):
         len(sp.exploits)
     if dup:
         acc.count("scenarios_with_duplicate_service_os_exploits")
+    # remember the mapping for the cross-process comparison at the end of
+    # the shard (other interpreters, other PYTHONHASHSEED)
+    if xproc is not None and kw.get("route") in ("yaml", "dict") and \
+            len(xproc) < 12:
+        import hashlib
+        import json as _json
+        blob = _json.dumps([sorted((k, repr(v)) for k, v in s_.items())
+                            for s_ in sig_theirs], sort_keys=True)
+        xproc.append(({"type": "actions",
+                       "source": {"type": "synth", "route": kw["route"],
+                                  "spec": sp.canonical()}},
+                      hashlib.sha256(blob.encode()).hexdigest()[:20]))
     # a second environment of the same scenario: same index -> action
     F2 = Subject(sp, flat_actions=True, scenario=F.scenario,
                  route=kw.get("route"))
@@ -617,6 +629,7 @@ def run(prop, tier, seed, shard, nshards):
     import nasim
     acc.extra["nasim_file"] = nasim.__file__
     cases = build_cases(tier)
+    xproc = [] if prop == "C11" else None
     for ci in corpus.shard_range(len(cases), shard, nshards):
         ctype, cid = cases[ci]
         rng = corpus.case_rng(seed, prop, ctype, cid)
@@ -626,7 +639,10 @@ def run(prop, tier, seed, shard, nshards):
             acc.count("source_failed:" + type(e).__name__)
             continue
         try:
-            CASES[prop](acc, sp, kw, rng, tier)
+            if prop == "C11":
+                c11_case(acc, sp, kw, rng, tier, xproc)
+            else:
+                CASES[prop](acc, sp, kw, rng, tier)
         except Exception as e:      # noqa
             import traceback
             acc.inconclusive.append(
@@ -634,6 +650,31 @@ def run(prop, tier, seed, shard, nshards):
                 + traceback.format_exc(limit=4)[-400:])
             continue
         acc.count(f"cases:{ctype}")
+    if xproc:
+        # same scenarios in other interpreters: index -> action must agree
+        from . import repro
+        saved = repro.HASH_SEEDS
+        try:
+            repro.HASH_SEEDS = {tier: ["1", "random"]}
+            outs = repro.spawn_children([c for c, _fp in xproc], tier)
+        finally:
+            repro.HASH_SEEDS = saved
+        for o in outs:
+            if "error" in o:
+                acc.inconclusive.append("C11 child failed: " +
+                                        o["error"][-200:])
+                continue
+            for (c, fp), r in zip(xproc, o["results"]):
+                acc.evaluations += 1
+                acc.count("mappings_compared_across_processes")
+                if r.get("fp") != fp:
+                    acc.violation(
+                        "mapping_differs_between_processes",
+                        "mapping_differs_between_processes",
+                        {"here": fp, "child": r, "hashseed": o["hashseed"]},
+                        {"kind": "api", "spec": c["source"]["spec"],
+                         "route": c["source"]["route"], "modes": {},
+                         "what": "xproc"})
     return acc.result()
 
 
